@@ -267,7 +267,7 @@ def evaluate_agreement(case):
 @st.composite
 def agreement_cases(draw, tier="quick"):
     k = draw(st.sampled_from([2, 3, 3, 4, 4, 5]))
-    n = draw(st.integers(11, 13 if tier == "quick" else 16))
+    n = draw(st.integers(11, 13 if tier == "quick" else 15))
     profile = draw(st.sampled_from(["small", "small", "small-repeated", "medium", "large", "near-equal-large", "planted"]))
     if profile == "small-repeated":
         pool = draw(st.lists(st.integers(1, 12), min_size=3, max_size=6))
@@ -296,7 +296,7 @@ def agreement_cases(draw, tier="quick"):
     objectives = ["diff"] + (draw(st.sampled_from([["minmax"], ["maxmin"], ["minmax", "maxmin"], []])))
     algs_sums = [a for a in ("ckk", "snp", "cg") if a in algs and draw(st.booleans())]
     return {"kind": "agreement", "values": values, "numbins": k, "algs": algs, "algs_sums": algs_sums, "objectives": objectives, "profile": profile,
-            "seconds": 20 if tier == "quick" else 90}
+            "seconds": 20 if tier == "quick" else 60}
 
 
 @st.composite
@@ -369,12 +369,12 @@ def legs(tier):
             "(exact optimum unchanged); non-trivial = the transformed input differs from the original and has >= 2 distinct values",
             strategy=pair_cases(), n_quick=4000, n_thorough=80000, valid=valid, shrink=shrink, floor=0.4),
         Leg("agreement", evaluate,
-            "hypothesis: 11-13 (thorough: 11-16) items, 2-5 bins, small / medium / 20-bit / near-equal-large / planted values; every exact "
+            "hypothesis: 11-13 (thorough: 11-15) items, 2-5 bins, small / medium / 20-bit / near-equal-large / planted values; every exact "
             "algorithm that can be expected to finish (ckk, snp, rnp, cg; cbldm for 2 bins; dp and ilp on the smaller ones) runs in a "
-            "forked child with a kill-timeout (20 s quick / 90 s thorough; a timeout is inconclusive): all finishers must report the same "
+            "forked child with a kill-timeout (20 s quick / 60 s thorough; a timeout is inconclusive): all finishers must report the same "
             "optimal difference (cg/dp/ilp also the same min-max / max-min) and greedy, kk and multifit may not beat them; non-trivial = "
             ">= 3 finishers and the greedy partition is not optimal",
-            strategy=agreement_cases(tier), n_quick=128, n_thorough=3000, valid=valid, shrink=shrink, floor=0.2, case_timeout=600, shards=16),
+            strategy=agreement_cases(tier), n_quick=128, n_thorough=1200, valid=valid, shrink=shrink, floor=0.2, case_timeout=600, shards=16),
         Leg("agreement-many-bins", evaluate,
             "hypothesis: 5 bins, 11 items drawn from 2-5 small values; ckk, complete greedy and rnp, the first two through the "
             "contents-keeping and through the sums-only bins-manager, in forked children with a kill-timeout: all must report the same "
